@@ -5,11 +5,11 @@ namespace Physis.Rd
 
 theorem u16le_put (v : UInt16) (r : Bytes) : u16le (putU16le v ++ r) = some (v, r) := by
   simp only [putU16le, u16le, List.cons_append, List.nil_append]
-  congr 2; bv_decide
+  congr 2; bv_decide (timeout := 300)
 
 theorem u32le_put (v : UInt32) (r : Bytes) : u32le (putU32le v ++ r) = some (v, r) := by
   simp only [putU32le, u32le, List.cons_append, List.nil_append]
-  congr 2; bv_decide
+  congr 2; bv_decide (timeout := 300)
 
 theorem u32s_put (l : List UInt32) (r : Bytes) :
     u32s l.length (l.flatMap putU32le ++ r) = some (l, r) := by
